@@ -144,6 +144,15 @@ example : (minimiseState mod4 [0, 2] [1, 3] 6).map
     (fun st => congruenceCert mod4 (clsTuple st) (allStates mod4)) = some true := by decide
 -- a non-injective renaming that is not a congruence fails the certificate
 example : congruenceCert mod4 (fun q => q % 3) (allStates mod4) = false := by decide
+/-- **Finding C07-F1** (repaired by proposed_fixes/C07-F1.diff).  On the two rules `z -> 0`,
+    `s(0) -> 0` with no final state the language is empty, yet the old `__remove_unproductive__`
+    keeps both rules (state 0 is "consumed" by its own cycle): `reduce()` did not return a trim
+    automaton and `minimise()` of its result was not minimal.  The repaired code (the model's
+    `reduce`) returns the empty table. -/
+def deadCycle : DFTA String Nat := { rules := [(("z", []), 0), (("s", [0]), 0)], finals := [] }
+theorem finding_C07_F1 :
+    (removeUnproductiveOld (removeUnreachable deadCycle) 5).rules = deadCycle.rules ∧
+    (reduce deadCycle).rules = [] := by decide
 end Example
 
 end PS.C07
